@@ -119,7 +119,7 @@ def optPost (st : OptSt) (ws : List String) : Option (OModel Float) :=
     let rel ← optParseRel rel
     let x ← x.toNat?
     let y ← y.toNat?
-    if optWellFormed nv [x, y] then pure (add (postFluentVV rel x y)) else none
+    if optWellFormed nv [x, y] then pure (m.postFluentVV rel x y) else none
   | ["eqimm", x, c] => do
     let x ← x.toNat?
     let c ← parseF? c
